@@ -109,6 +109,30 @@ Definition suite_C06atomic (inp obs : list tok) : verdict :=
   | _, _ => malformed
   end.
 
+(* ---------------------------------------------------------------- requested memory ordering *)
+(* "The atomic load and store operations give the same guarantee with the requested ordering": the
+   ordering a caller passes to Bytes::store / Bytes::load is handed unchanged to the one atomic access
+   the call makes (volatile_memory.rs:830-848: get_atomic_ref(addr).map(|r| r.store(val.into(), order)) /
+   r.load(order)).  Observed on the real library through third-party AtomicInteger implementations that
+   log the ordering they receive.   mode ep size store_order load_order => st seen_store seen_load nstores nloads
+   (orders: 0 Relaxed 1 Release 2 Acquire 3 AcqRel 4 SeqCst; a store is never asked Acquire/AcqRel, a load
+   never Release/AcqRel: std panics on those) *)
+Definition store_order_ok (o : N) : bool := (o =? 0) || (o =? 1) || (o =? 4).
+Definition load_order_ok (o : N) : bool := (o =? 0) || (o =? 2) || (o =? 4).
+Definition run_C06order (os ol : N) : list N := [0; os; ol; 1; 1].
+Definition ok_C06order (os ol : N) (obs : list N) : bool :=
+  match obs with
+  | [st; so; lo; ns; nl] => (st =? 0) && (so =? os) && (lo =? ol) && (ns =? 1) && (nl =? 1)
+  | _ => false end.
+Definition suite_C06order (inp obs : list tok) : verdict :=
+  match inp, obs with
+  | [TN md; TN ep; TN size; TN os; TN ol], [TN st; TN so; TN lo; TN ns; TN nl] =>
+      if is_word size && (ep <=? 2) && store_order_ok os && load_order_ok ol then
+        {| v_model := map TN (run_C06order os ol); v_ok := ok_C06order os ol [st; so; lo; ns; nl]; v_wellformed := true |}
+      else malformed
+  | _, _ => malformed
+  end.
+
 (* ---------------------------------------------------------------- two-thread tearing detector *)
 (* black-box cross-check on the real library: a writer flips an aligned u16/u32/u64 between two
    values, a reader must only see one of them.   mode level size millis => torn reads_happened *)
